@@ -360,14 +360,22 @@ def run_unit(name, tier="quick", use_cache=True, canary=True, repo=None):
             else:
                 res["status"] = "undecided"
                 res["undecided"].append("verus error in unit-authored item %s: %s" % (fnn, msg))
-    if vres.get("encountered-vir-error") or (vres.get("encountered-error") and not failed_fns and res["status"] == "ok"):
+    nfail = len([o for o in obl.values() if o["status"] == "failed"])
+    aborted = bool(vres.get("encountered-vir-error")) or vres.get("verified") is None
+    if aborted and res["status"] == "ok" and nfail:
+        # verification stopped at an error that *is* an obligation (e.g. recursion without decreases =
+        # termination): the mapped obligations fail, everything else was not looked at
+        for o in obl.values():
+            if o["status"] != "failed":
+                o["status"] = "unknown"
+        res["aborted"] = True
+    elif aborted or (vres.get("encountered-error") and not failed_fns and res["status"] == "ok"):
         res["status"] = "undecided"
         res["undecided"].append("verus front-end error: %s" % " | ".join(vr["raw_stderr"][:5]))
-    nfail = len([o for o in obl.values() if o["status"] == "failed"])
-    if res["status"] == "ok" and vres.get("errors", 0) == 0 and nfail:
+    if res["status"] == "ok" and not aborted and vres.get("errors", 0) == 0 and nfail:
         res["status"] = "undecided"
         res["undecided"].append("inconsistent verus result")
-    if res["status"] == "ok" and vres.get("errors", 0) > 0 and nfail == 0:
+    if res["status"] == "ok" and not aborted and (vres.get("errors") or 0) > 0 and nfail == 0:
         res["status"] = "undecided"
         res["undecided"].append("verus reported %d errors that map to no obligation" % vres.get("errors"))
     # per-function records
@@ -390,7 +398,7 @@ def run_unit(name, tier="quick", use_cache=True, canary=True, repo=None):
                                  "rlimit": sum(x.get("rlimit", 0) for x in t) if t else None})
     res["obligations"] = [obl[o] for o in order]
     # ---------------------------------------------------------------- canary pass
-    if canary and res["status"] == "ok":
+    if canary and res["status"] == "ok" and not res.get("aborted"):
         expect, exempt = set(f["name"] for f in template_fns), {}
         for fname, f in extracted.items():
             if f["has_body"] and not f["external_body"]:
